@@ -66,7 +66,8 @@ func runC13(c *core.Ctx) {
 	cur := -1
 	nontrivial := false
 	var fp []uint64
-	c.Logf("mtu=%d temporal units=%d", mtu, nTU)
+	varyMTU := mtu < 2000 && t.Chance(1, 6)
+	c.Logf("mtu=%d temporal units=%d varyMTU=%v", mtu, nTU, varyMTU)
 	finish := func(k int) {
 		if k < 0 || len(c.Viol) > 0 {
 			return
@@ -85,7 +86,24 @@ func runC13(c *core.Ctx) {
 		}
 	}
 	streamWorld(c, nTU, func(k int) [][]byte {
+		if varyMTU && k > 0 {
+			mtu = 2 + []int{10, 0, 1, 2, 5, 30, 62, 1198}[t.Intn(8)] + t.Intn(4) // the path MTU changed between units
+		}
 		obus, stream := genAV1TU(t, mtu)
+		if t.Chance(1, 6) {
+			// feedback-aimed unit: the open packet is left with a LEB128-boundary number of free bytes
+			measure := func(b []byte) int {
+				var out [][]byte
+				if c.Guard("codecs.AV1Payloader.Payload(measure)", func() { out = (&codecs.AV1Payloader{}).Payload(uint16(mtu), b) }) || len(out) == 0 {
+					return -1
+				}
+				return len(out[len(out)-1])
+			}
+			if o2, s2, ok := genAV1Aimed(t, mtu, measure); ok {
+				obus, stream = o2, s2
+				c.Probe("aimed-free-space")
+			}
+		}
 		var u tu
 		u.obus = obus
 		layerRun, lastT, lastS := 0, byte(255), byte(255)
